@@ -267,6 +267,11 @@ STAGES['C01']['thorough'] += [('call-sequences-len4', 'MsgCalls', dict(MAXCALLS=
 STAGES['C12']['quick'].append(
     ('signed-producers-and-sinks', 'MimeBuild', cfg(MAXP='2', MAXE='1', MAXA='1', ENCS='{"qp", "8bit"}', SMIMES='{[key |-> "ecdsa", inter |-> FALSE]}',
                                                     FAULTS=PRODFAULTS + ' \\cup {[kind |-> "sink", slot |-> 0, when |-> ""]}', CCS='<<"crlf", "utf8">>')))
+# a producer that fails ONCE (its first invocation) and works afterwards: an unsigned message calls it once, a signed message calls it in the
+# signing render first - whichever render the failure hits, WriteTo must report it
+STAGES['C12']['quick'].append(
+    ('transient-producer-failure', 'MimeBuild', cfg(MAXP='2', MAXE='1', MAXA='1', ENCS='{"qp", "8bit"}', SMIMES='{[key |-> "", inter |-> FALSE], [key |-> "ecdsa", inter |-> FALSE]}',
+                                                    PRODS='<<"writer", "chunk7", "string">>', FAULTS='{[kind |-> "producer", slot |-> s, when |-> "first"] : s \\in 1..4}', CCS='<<"crlf", "utf8", "size300">>')))
 # bodies far larger than any copy buffer (40 KB), written straight to the destination (single part / single file) or through a multipart
 STAGES['C12']['quick'].append(
     ('large-bodies', 'MimeBuild', cfg(MAXP='1', MAXE='0', MAXA='1', ENCS='{"qp", "8bit"}', FENCS='{"", "8bit"}', FAULTS='{[kind |-> "sink", slot |-> 0, when |-> ""]}', CCS='<<"size40000">>')))
